@@ -1,9 +1,9 @@
 SPECIFICATION Spec
 CONSTANTS
-  MaxLines = 8
+  MaxLines = 7
   Prefix <- PrefixNest
   Alphabet <- AlphaNest
-  Fixed <- DevsNone
+  Fixed <- AllDevs
 INVARIANT TypeOK
-INVARIANT OnlyKnown
-INVARIANT KnownDeviates
+INVARIANT Fidelity
+INVARIANT PartSize
